@@ -115,26 +115,41 @@ def handle (j : Json) : Json :=
     -- specification on the implementation's snapshots
     let preOk := consistentB pre
     let failedAll := iret == "fail" || (!imsgs.isEmpty && imsgs.all (fun m => !m.ok))
-    let c10 := (if preOk && !consistentB post then [s!"C10:inconsistent:{opName}:{fkind}"] else []) ++
+    -- direction of an inconsistency: do the records claim more than the usage, or the other way round
+    let incDir := if (namesOf post).any (fun n => decide ((load post n).mem > (post.usage n).mem) ||
+                        decide ((load post n).cpu > (post.usage n).cpu)) then "records-exceed-usage" else "usage-exceeds-records"
+    let c10 := (if preOk && !consistentB post then [s!"C10:inconsistent:{opName}:{fkind}:{incDir}"] else []) ++
                (if withinCapB names pre && !withinCapB names post && opName != "setnode" then [s!"C10:over-capacity:{opName}:{fkind}"] else [])
+    -- what differs between pre and post (for the parts of an operation that report failure)
+    let whatDiffers : List String :=
+      (if post.wls.all (fun w => pre.wls.any (fun w' => w'.id == w.id)) then [] else ["new-record-stays"]) ++
+      (if pre.wls.all (fun w => post.wls.contains w) then [] else ["record-lost-or-changed"]) ++
+      (if post.cts.all (fun c => pre.cts.any (fun c' => c'.id == c.id)) then [] else ["new-container-stays"]) ++
+      (if pre.cts.all (fun c => post.cts.any (fun c' => c'.id == c.id)) then [] else ["container-lost"]) ++
+      (if pre.cts.all (fun c => !c.running || post.cts.all (fun c' => c'.id != c.id || c'.running)) then [] else ["container-not-running"]) ++
+      (if names.all (fun n => decide (pre.usage n = post.usage n)) then [] else ["usage"]) ++
+      (if names.all (fun n => decide (pre.cap n = post.cap n)) then [] else ["capacity"]) ++
+      (if sortStr pre.nodes == sortStr post.nodes then [] else ["nodes"]) ++
+      (if sortStr pre.pnodes == sortStr post.pnodes then [] else ["plugin-records"])
+    let effectTags (pfx : String) : List String := whatDiffers.map (fun d => s!"{pfx}:{d}")
+    -- partial remove / dissociate / create: usage moved by exactly the successful parts
+    let succIds := (imsgs.filter (·.ok)).map (·.id)
+    let usageBySuccess (sign : Bool) : Bool :=
+      names.all (fun n =>
+        let moved := if sign then loadL (post.wls.filter (fun w => succIds.contains w.id)) n
+                     else loadL (pre.wls.filter (fun w => succIds.contains w.id)) n
+        if sign then decide (post.usage n = pre.usage n + moved) else decide (post.usage n + moved = pre.usage n))
     let c11 :=
       match op with
-      | .create _ => []   -- per-instance cleanliness is C12's `failure-left-behind`
+      | .create _ =>
+        if failedAll then effectTags s!"C11:effect-after-failure:{opName}:{fkind}"
+        else if imsgs.any (fun m => !m.ok) && !cleanB imsgs pre post then [s!"C11:failed-part-changed:{opName}:{fkind}"] else []
       | .remove _ _ | .dissociate _ _ =>
-        -- every workload whose message reports failure is still recorded, unchanged
+        -- every workload whose message reports failure is still recorded, unchanged; usage moved by the successes only
         let bad := imsgs.filter (fun m => !m.ok && m.id != 0 && !(pre.wls.all (fun w => w.id != m.id || post.wls.contains w)))
-        (if bad.isEmpty then [] else [s!"C11:failed-part-changed:{opName}:{fkind}"]) ++
-        (if failedAll && !sameAbsB names pre post then [s!"C11:effect-after-failure:{opName}:{fkind}"] else [])
-      | .replace _ wid =>
-        if failedAll then
-          (if sameAbsB names pre post then [] else [s!"C11:effect-after-failure:{opName}:{fkind}"]) ++
-          (if post.wls.any (fun w => w.id == wid) && post.cts.any (fun c => c.id == wid && c.running) then []
-           else [s!"C11:replace-old-lost:{fkind}"])
-        else []
-      | .addNode _ _ | .removeNode _ =>
-        if failedAll && !(sameAbsB names pre post && sortStr pre.pnodes == sortStr post.pnodes)
-        then [s!"C11:effect-after-failure:{opName}:{fkind}"] else []
-      | _ => if failedAll && !sameAbsB names pre post then [s!"C11:effect-after-failure:{opName}:{fkind}"] else []
+        (if bad.isEmpty && (failedAll || iret == "fail" || usageBySuccess false) then [] else [s!"C11:failed-part-changed:{opName}:{fkind}"]) ++
+        (if failedAll then effectTags s!"C11:effect-after-failure:{opName}:{fkind}" else [])
+      | _ => if failedAll then effectTags s!"C11:effect-after-failure:{opName}:{fkind}" else []
     let c12 :=
       match op with
       | .create _ =>
